@@ -404,16 +404,12 @@ theorem runSeq_relinearize_wf {l : List Tr} (hl : Closed l) :
     exact relin_step .meg trivial r ih c hc
 
 /-- `t1 | t2` runs `t1` then `t2` -/
-theorem or_eq_seq_wf (a b : Tr) (c : R Circuit) (hc : GoodR c) :
+theorem or_eq_seq_wf (a b : Tr) (c : R Circuit) (_hc : GoodR c) :
     runSeq c (linearize (a.or b)) = runSeq (runSeq c (linearize a)) (linearize b) := by
   unfold Tr.or
   simp only [linearize]
-  rw [linearizeList_append, runSeq_append, runSeq_relinearize_wf (linearize_closed a) c hc]
-  congr 1
-  cases b with
-  | comp tb => simp [linearize]
-  | rrg x => simp [linearize, linearize.linearizeList]
-  | muo | mdg | meg => simp [linearize, linearize.linearizeList]
+  rw [linearizeList_append, runSeq_append]
+  cases a <;> cases b <;> simp [linearize, linearize.linearizeList]
 
 /-- `cleanup` is RRG, MUO, RRG, MDG, RRG (and MEG, RRG when heavy), in this order -/
 theorem cleanup_eq_seq_wf {c : Circuit} (hw : WFS c) (har : ArOK c) (heavy : Bool) :
